@@ -59,6 +59,7 @@ type ProcSpec struct {
 	StopTimeout *int   `json:"stop_timeout,omitempty"`
 	StopCmd     string `json:"stop_cmd,omitempty"` // token: command is "simstop <token>"
 	UseEntry    bool   `json:"use_entry,omitempty"` // use entrypoint: [simproc, token] instead of command
+	CmdTail     string `json:"cmd_tail,omitempty"`  // appended to the command line after the token (C17: $VAR forms)
 }
 
 type ProjectSpec struct {
@@ -71,6 +72,7 @@ type ProjectSpec struct {
 	LogNoJSON   bool              `json:"log_no_json,omitempty"`
 	LogFlush    bool              `json:"log_flush,omitempty"`
 	IsStrict    bool              `json:"is_strict,omitempty"`
+	NoExpand    bool              `json:"no_expand,omitempty"` // disable_env_expansion: true
 }
 
 func (p *ProjectSpec) Proc(name string) *ProcSpec {
@@ -192,6 +194,9 @@ func (p *ProjectSpec) Render(tmp string) string {
 	if p.IsStrict {
 		b.WriteString("is_strict: true\n")
 	}
+	if p.NoExpand {
+		b.WriteString("disable_env_expansion: true\n")
+	}
 	if p.LogLocation != "" {
 		fmt.Fprintf(&b, "log_location: %s\n", q(absIn(tmp, p.LogLocation)))
 	}
@@ -231,7 +236,11 @@ func (p *ProjectSpec) Render(tmp string) string {
 		if pr.UseEntry {
 			fmt.Fprintf(&b, "    entrypoint: [\"simproc\", %s]\n", q(pr.Token))
 		} else {
-			fmt.Fprintf(&b, "    command: %s\n", q("simproc "+pr.Token))
+			cmd := "simproc " + pr.Token
+			if pr.CmdTail != "" {
+				cmd += " " + pr.CmdTail
+			}
+			fmt.Fprintf(&b, "    command: %s\n", q(cmd))
 		}
 		if pr.Replicas != 0 {
 			fmt.Fprintf(&b, "    replicas: %d\n", pr.Replicas)
